@@ -266,7 +266,11 @@ impl Array {
                     } else {
                         None
                     },
-                    if t[2] { Some(x.clone()) } else { None },
+                    if t[2] {
+                        Some(Array::from((x.dimensions.clone(), Rc::clone(&x.values))))
+                    } else {
+                        None
+                    },
                 ]
             }))
         };
